@@ -260,7 +260,7 @@ func runFetch(r *mc.Run) {
 	r.Assume("part 2: a wake signal (processHeaders' `true`) is used as a tick in addition to fetchParts' own 100 ms ticker; both only trigger a round of the loop")
 	r.Assume("part 2, two cycles: the point where the first cycle is cut is fixed per configuration (first loop round at which the importer holds cutAt blocks), not explored; every cut point x every interleaving is part 1's job (systems queue2-...)")
 	r.Assume("part 2: peer throughput is measured by wall-clock; MaxBlockFetch is set to 3..4 so the request size is 2 after a failure and MaxBlockFetch after a success whatever the measurement")
-	r.Rule += " || PART 2 (real fetch loop): every schedule with at most k deviations (k per configuration in fetch_loop_configurations) of a run of the real Downloader.fetchBodies/fetchParts goroutine against scripted peers; a schedule = the choices at the run's decision points in order of occurrence: per request received by the designated peer P1 one of {full, part (prefix), empty, wrong0 (first body wrong), wrongLast, dup (previous answer packet again, then the answer), unsol (batch nobody asked for, then the answer), timeout (never answered; expires), late (answered after the expiry was processed), disconnect (reconnects after the orphaned request expired)}, per import opportunity one of {take, stall}; configurations vary chain pattern, result window, MaxBlockFetch, master peer, eager/lazy importer, split header scheduling and a second peer with a fixed personality (honest | dead: never answers | liar: first body always wrong | empty: always empty answers | gone: disconnects on its first request); distinct = distinct (configuration, schedule, outcome); oracles: importer sequence origin.. exactly once with matching body; fetchBodies must return, nil only with every block delivered, an error only with a cause (master lost, no peer left, every peer lacking); a run that has not returned while nothing is in flight, nothing is left for the environment to do and 30 wake-ups change nothing is a dead state; peers are dropped only for a timed-out request of at most 2 items; every violation signature is confirmed by 3 replays of its shortest schedule with the dead state observed over 30 periods of the loop's own 100 ms ticker; configurations cyc2-*: TWO sync cycles on one Downloader - the first is cancelled as soon as the importer holds cutAt blocks (requests in flight, results possibly ready; or it runs to its end) exactly as spawnSync/Cancel/synchronise do (queue closed, cancel channel closed, fetchBodies awaited, wake and delivery channels emptied, queue.Reset, peers.Reset, new cancel channel, Prepare, fetchBodies spawned again), the second fetches from below / at / above the point the result window had reached, on the same chain or on a chain forking off below that point; unanswered requests of the first cycle are answered late in the second; the decision points of both cycles are explored, all oracles apply to each cycle relative to its own first block and chain"
+	r.Rule += " || PART 2 (real fetch loop): every schedule with at most k deviations (k per configuration in fetch_loop_configurations) of a run of the real Downloader.fetchBodies/fetchParts goroutine against scripted peers; a schedule = the choices at the run's decision points in order of occurrence: per request received by the designated peer P1 one of {full, part (prefix), empty, wrong0 (first body wrong), wrongLast, hollow (as many bodies as requested, each an empty transaction list), dup (previous answer packet again, then the answer), unsol (batch nobody asked for, then the answer), timeout (never answered; expires), late (answered after the expiry was processed), disconnect (reconnects after the orphaned request expired)}, per import opportunity one of {take, stall}; configurations vary chain pattern, result window, MaxBlockFetch, master peer, eager/lazy importer, split header scheduling and a second peer with a fixed personality (honest | dead: never answers | liar: first body always wrong | empty: always empty answers | gone: disconnects on its first request); distinct = distinct (configuration, schedule, outcome); oracles: importer sequence origin.. exactly once with matching body; fetchBodies must return, nil only with every block delivered, an error only with a cause (master lost, no peer left, every peer lacking); a run that has not returned while nothing is in flight, nothing is left for the environment to do and 30 wake-ups change nothing is a dead state; peers are dropped only for a timed-out request of at most 2 items; every violation signature is confirmed by 3 replays of its shortest schedule with the dead state observed over 30 periods of the loop's own 100 ms ticker; configurations cyc2-*: TWO sync cycles on one Downloader - the first is cancelled as soon as the importer holds cutAt blocks (requests in flight, results possibly ready; or it runs to its end) exactly as spawnSync/Cancel/synchronise do (queue closed, cancel channel closed, fetchBodies awaited, wake and delivery channels emptied, queue.Reset, peers.Reset, new cancel channel, Prepare, fetchBodies spawned again), the second fetches from below / at / above the point the result window had reached, on the same chain or on a chain forking off below that point; unanswered requests of the first cycle are answered late in the second; the decision points of both cycles are explored, all oracles apply to each cycle relative to its own first block and chain"
 	deadlineB = r.Deadline
 	cfgs := configsB(r.Quick())
 	if v := os.Getenv("C18B_CONFIGS"); v != "" {
